@@ -219,7 +219,7 @@ def main(argv=None):
         else:
             flaky += len(viols[sig])
 
-    rep_dir = os.path.join(VERIF, 'replays', prop)
+    rep_dir = os.path.join(os.environ.get('RSMC_REPLAY_DIR', os.path.join(VERIF, 'replays')), prop)
     lines = []
     for what, cnt in sorted(known_hit.items()):
         lines.append(f'KNOWN-FINDING: property={prop} {what} [{cnt} case(s)]')
@@ -274,8 +274,9 @@ def main(argv=None):
         'wall_s': round(wall, 2),
         'violations': len(new_viol),
     }
-    os.makedirs(os.path.join(VERIF, 'evidence'), exist_ok=True)
-    evpath = os.path.join(VERIF, 'evidence', prop + '.json')
+    evdir = os.environ.get('RSMC_EVIDENCE_DIR', os.path.join(VERIF, 'evidence'))
+    os.makedirs(evdir, exist_ok=True)
+    evpath = os.path.join(evdir, prop + '.json')
     with open(evpath, 'w') as f:
         json.dump(ev, f, indent=1, default=str)
     ok, msg = validate_evidence(evpath)
